@@ -154,7 +154,7 @@ func Program(prog int64, nops int, brKind int, withBase int) {
 			}
 			if onlyMissing { // the error must then name one of the unresolved labels
 				msg := err.Error()
-				named := (missing[0] && contains(msg, "'L0'")) || (missing[1] && contains(msg, "'L1'"))
+				named := (missing[0] && contains(msg, "L0")) || (missing[1] && contains(msg, "L1")) // however it is quoted
 				vp.Assert("error-names-an-unresolved-label", named)
 			}
 		}
